@@ -286,3 +286,120 @@ def unsupported_plan(draw):
             node["repetition"] = "OPTIONAL"
     case["unsupported"] = feat
     return case
+
+
+# ------------------------------------------------------------------ nested (C15)
+ELEMENT_TYPES = [
+    ("i32", {"physical": "INT32"}, "i32"),
+    ("i64", {"physical": "INT64"}, "i64"),
+    ("f64", {"physical": "DOUBLE"}, "f64"),
+    ("utf8", {"physical": "BYTE_ARRAY", "converted": "UTF8"}, "text"),
+    ("bool", {"physical": "BOOLEAN"}, "bool"),
+]
+
+
+@st.composite
+def nested_column(draw, name, layouts=("3level",), allow_map=True):
+    from vf.refpq import dremel
+    is_map = allow_map and draw(st.integers(0, 3)) == 0
+    ekey, enode, ekind = draw(st.sampled_from(ELEMENT_TYPES))
+    narrow = draw(st.booleans())
+    pool = draw(st.lists(value(ekind, narrow), min_size=1, max_size=8))
+    if ekind == "f64":
+        pool = [v for v in pool if v == v] or [1.5]
+    outer_opt = draw(st.booleans())
+    inner_opt = draw(st.booleans())
+    if is_map:
+        kkey, knode, kkind = draw(st.sampled_from([t for t in ELEMENT_TYPES if t[0] in ("i32", "i64", "utf8")]))
+        kpool = draw(st.lists(value(kkind, True), min_size=1, max_size=6, unique_by=lambda x: repr(x)))
+        node = dremel.map_schema(name, dict(knode), dict(enode), map_optional=outer_opt, value_optional=inner_opt,
+                                 legacy=draw(st.integers(0, 4)) == 0)
+        return {"node": node, "shape": "map", "ekind": ekind, "kkind": kkind, "pool": pool, "kpool": kpool,
+                "outer_opt": outer_opt, "inner_opt": inner_opt, "leaves": 2}
+    layout = draw(st.sampled_from(list(layouts)))
+    if layout == "2level_primitive":
+        inner_opt = False
+    node = dremel.list_schema(name, dict(enode), list_optional=outer_opt, element_optional=inner_opt, layout=layout)
+    return {"node": node, "shape": "list", "layout": layout, "ekind": ekind, "pool": pool,
+            "outer_opt": outer_opt, "inner_opt": inner_opt, "leaves": 1}
+
+
+@st.composite
+def nested_rows(draw, col, n):
+    rows = []
+    for _ in range(n):
+        k = draw(st.integers(0, 9))
+        if k == 0 and col["outer_opt"]:
+            rows.append(None)
+            continue
+        ln = 0 if k == 1 else draw(st.integers(0, 6))
+        if col["shape"] == "map":
+            keys = draw(st.lists(st.sampled_from(col["kpool"]), max_size=min(ln, len(col["kpool"])), unique_by=lambda x: repr(x)))
+            row = []
+            for kk in keys:
+                v = None if (col["inner_opt"] and draw(st.integers(0, 4)) == 0) else draw(st.sampled_from(col["pool"]))
+                row.append([kk, v])
+            rows.append(row)
+        else:
+            row = []
+            for _ in range(ln):
+                row.append(None if (col["inner_opt"] and draw(st.integers(0, 4)) == 0) else draw(st.sampled_from(col["pool"])))
+            rows.append(row)
+    return rows
+
+
+def _entries(col, rows):
+    """Number of level entries a chunk of these rows has (one per element, one per null/empty row)."""
+    return sum(max(1, len(r)) if r is not None else 1 for r in rows)
+
+
+@st.composite
+def nested_plan(draw, thorough=False, layouts=("3level",), allow_v2=True, allow_map=True):
+    ncols = draw(st.sampled_from([1, 1, 2]))
+    cols = [draw(nested_column("n%d" % i, layouts=layouts, allow_map=allow_map)) for i in range(ncols)]
+    n_groups = draw(st.sampled_from([1, 1, 2, 3]))
+    rgs = []
+    for g in range(n_groups):
+        n = draw(st.one_of(st.integers(0, 12), st.sampled_from([0, 1, 8, 9, 30 if not thorough else 100])))
+        data, chunks = {}, {}
+        for c in cols:
+            rows = draw(nested_rows(c, n))
+            name = c["node"]["name"]
+            data[name] = rows
+            total = _entries(c, rows)
+            version = draw(st.sampled_from([1, 1, 2])) if allow_v2 else 1
+            enc = draw(st.sampled_from(["PLAIN", "PLAIN", "RLE_DICTIONARY", "PLAIN_DICTIONARY"]))
+            if c["ekind"] == "bool":
+                enc = "PLAIN"     # dictionary-encoded booleans: legal, but no mainstream writer produces them
+            leafpaths = _leaf_paths(c["node"])
+            for lp in leafpaths:
+                npages = draw(st.sampled_from([1, 1, 2, 3, 5]))
+                pages, left = [], total
+                for pi in range(npages):
+                    pn = None if pi == npages - 1 else draw(st.integers(0, max(0, left)))
+                    page = {"n": pn, "version": version, "encoding": enc}
+                    if enc != "PLAIN":
+                        page["bit_width"] = draw(st.one_of(st.none(), st.integers(0, 12)))
+                    if draw(st.integers(0, 2)) == 0:
+                        page["def_runs"] = draw(run_plan(left if pn is None else pn))
+                        page["rep_runs"] = draw(run_plan(left if pn is None else pn))
+                    if version == 2:
+                        page["is_compressed"] = draw(st.sampled_from([None, True, False]))
+                    pages.append(page)
+                    if pn is not None:
+                        left -= pn
+                chunks[lp] = {"codec": draw(st.sampled_from(CODECS)), "pages": pages}
+        rgs.append({"data": data, "chunks": chunks})
+    plan = {"schema": [c["node"] for c in cols], "row_groups": rgs,
+            "created_by": draw(st.sampled_from(["parquet-mr version 1.12.3 (build abc)", "parquet-cpp-arrow version 14.0.1"]))}
+    return {"plan": plan, "cols": [{k: v for k, v in c.items() if k not in ("node", "pool", "kpool")} | {"name": c["node"]["name"]} for c in cols]}
+
+
+def _leaf_paths(node, prefix=""):
+    p = prefix + node["name"]
+    if "children" not in node:
+        return [p]
+    out = []
+    for ch in node["children"]:
+        out += _leaf_paths(ch, p + ".")
+    return out
